@@ -1,5 +1,5 @@
 """C15 -- dot segments are removed exactly when an authority is present."""
-from .common import run_model, run_progs
+from .common import run_model, run_progs, run_value_machine
 
 FINISH = dict(rule="R1 MC_Dots: the stack machine of _path.py = the literal RFC 3986 5.2.4 buffer algorithm on every segment "
                    "sequence over 9 segment kinds up to the stated length (+ idempotence, no dot left, rooted, trailing slash); "
@@ -12,6 +12,7 @@ INVS = ["Inv_IsRfc524", "Inv_Idempotent", "Inv_NoDotLeft", "Inv_Rooted", "Inv_Tr
 def run(out, sc, tier, seed):
     run_model(out, sc, "MC_Dots", INVS, ["MaxLen = %d" % (4 if tier == "quick" else 6)], label="MC_Dots")
     run_model(out, sc, "MC_Join", ["Inv_C15_Join"], label="MC_Join[no dots after join]")
+    run_value_machine(out, sc, "C15", tier, fields=FIELDS)
     out.exhaustive = True
     n = 12000 if tier == "quick" else 300000
     run_progs(out, sc, "C15", {"gen": "dots", "n": n, "seed": seed, "fields": FIELDS, "maxseg": 4 if tier == "quick" else 5},
